@@ -6,6 +6,7 @@ import (
 	"encoding/binary"
 	"errors"
 	"fmt"
+	"math"
 	"net"
 	"time"
 
@@ -311,6 +312,9 @@ func (s *Server) writePQServerAuth(b []byte, hs *HandshakeState) (int, error) {
 		return 0, err
 	}
 	encCertLen := EncryptedCertificatesLength(c.RawLeaf, c.RawIntermediate)
+	if encCertLen > math.MaxUint16 {
+		return 0, ErrBufOverflow
+	}
 	if len(b) < HeaderLen+SessionIDLen+DHLen+encCertLen {
 		return 0, ErrBufUnderflow
 	}
@@ -476,6 +480,9 @@ func (hs *HandshakeState) readPQServerAuth(b []byte) (int, error) {
 
 func (hs *HandshakeState) writePQClientAuth(b []byte) (int, error) {
 	encCertLen := EncryptedCertificatesLength(hs.leaf, hs.intermediate)
+	if encCertLen > math.MaxUint16 {
+		return 0, ErrBufOverflow
+	}
 	length := HeaderLen + SessionIDLen + encCertLen + MacLen + MacLen
 	if len(b) < length {
 		return 0, ErrBufUnderflow
@@ -690,6 +697,9 @@ func (hs *HandshakeState) writePQClientRequestHidden(b []byte, serverKEMPublicKe
 	logrus.Debug("client: sending client request (hidden mode)")
 
 	encCertsLen := EncryptedCertificatesLength(hs.leaf, hs.intermediate)
+	if encCertsLen > math.MaxUint16 {
+		return 0, ErrBufOverflow
+	}
 
 	length := HeaderLen + KemKeyLen + KemCtLen + encCertsLen + MacLen + TimestampLen + MacLen
 
@@ -938,6 +948,9 @@ func (s *Server) writePQServerResponseHidden(hs *HandshakeState, b []byte) (int,
 	}
 
 	encCertLen := EncryptedCertificatesLength(c.RawLeaf, c.RawIntermediate)
+	if encCertLen > math.MaxUint16 {
+		return 0, ErrBufOverflow
+	}
 
 	length := HeaderLen + SessionIDLen + KemCtLen + encCertLen + 2*MacLen
 
